@@ -14,6 +14,8 @@ CONSTANTS
   BitmapExcludeExact = TRUE
   ProvidersAgree = FALSE
   DeleteDropsPacked = TRUE
+  CgHonoursShallow = TRUE
+  Focus = "all"
 INVARIANT TypeOK
 INVARIANT Transparent
 VIEW view
